@@ -671,7 +671,7 @@ func denoteObject(s *gen.Shape, raw any, env *gen.Env, depth int, shorthand map[
 			val, has, fromDefault = dv, true, true
 		}
 		if !has {
-			if s.Struct != "" && structValueSubObject(p, env) {
+			if s.Struct != "" && structValueSubObject(p, env) && materialises(s.Struct, p, env, 0) {
 				// struct-mapped parent: an absent by-value sub-object is materialised from its own defaults;
 				// whether that counts as "set" is not stated
 				verdict, why = Unspec, "absent by-value sub-object of a struct-mapped parent"
@@ -861,4 +861,47 @@ func outsideField(structName, prop string, v int64) string {
 		}
 	}
 	return ""
+}
+
+// materialises: does a struct-mapped parent fill in this sub-object when the input leaves it out? It does when the
+// Go field holds the sub-object by value and the sub-object (or a by-value sub-object of it) declares a default;
+// without any default, and through pointer fields, an absent sub-object simply stays absent.
+func materialises(structName string, p *gen.Prop, env *gen.Env, depth int) bool {
+	if depth > 6 {
+		return true // (not decided here: stay on the cautious side)
+	}
+	z := gen.ZeroStruct(structName)
+	if z == nil {
+		return true
+	}
+	t := reflect.TypeOf(z)
+	for t.Kind() == reflect.Pointer {
+		t = t.Elem()
+	}
+	if t.Kind() != reflect.Struct {
+		return true
+	}
+	f, ok := fieldFor(t, p.Name)
+	if !ok {
+		return true
+	}
+	if f.Type.Kind() != reflect.Struct {
+		return false // a pointer (or a map): nothing is filled in
+	}
+	if p.Default != nil {
+		return true
+	}
+	sub, subEnv := objectOf(p.T, env)
+	if sub == nil {
+		return true
+	}
+	for _, sp := range sub.Props {
+		if sp.Default != nil {
+			return true
+		}
+		if sub.Struct != "" && structValueSubObject(sp, subEnv) && materialises(sub.Struct, sp, subEnv, depth+1) {
+			return true
+		}
+	}
+	return false
 }
